@@ -101,7 +101,7 @@ def generate(streams: core.Streams, tier: str) -> dict:
     n_pipes = w.randint(1, 3)
     pipelines: dict[str, dict] = {}
     for i in range(n_pipes):
-        spec = gen.gen_pipeline(w, tag=f"p{i}", n_items=(1, 4))
+        spec = gen.gen_pipeline(w, tag=f"p{i}", n_items=(1, 4), nest=0.25)
         if gen.chance(f, 0.15):
             spec["transformations"].append({"type": "sim_fail_at", "fail_at": f.randint(1, 3),
                                             "rule_conditions": [gen.rule_condition(f)]})
